@@ -4,7 +4,9 @@
   of `_uxda_grid_aggregate`) and of `connectivity.get_face_node_partitions`, with the C17 spec.
 
   The reduction `red : List α → β` (np.mean, np.min, …) and the node data `data : Int → α`
-  are parameters: the theorems hold for every reduction.
+  are parameters: the structural theorems hold for every reduction.  The ten reductions the code
+  offers are ALSO given explicitly, exactly, over ℚ (`Red`, `core`), with the float clause of the
+  spec (`accepts`, `judgeRows`) the driver decides on the implementation's outputs.
 -/
 import UxVerif.Model.Incidence
 
@@ -98,5 +100,139 @@ def dispatch (c : Centre) (d : Dest) : Outcome :=
     | .edge => .notImplemented
     | .face => .notImplemented
     | .other => .valueError
+
+/-! ### the ten reductions of `NUMPY_AGGREGATIONS`, exactly, over ℚ
+
+Every finite float64 / int64 / bool is a rational, so the value a reduction SHOULD return on a
+gathered row is a rational that Lean computes exactly (`std`: its square).  `none` is where
+NumPy itself returns nan/inf or raises (empty row for mean/min/max/median, `n ≤ ddof`). -/
+
+inductive Red | mean | max | min | prod | sum | std | var | median | all | any
+deriving Repr, DecidableEq
+
+def qsum (l : List Rat) : Rat := l.foldr (· + ·) 0
+def qprod (l : List Rat) : Rat := l.foldr (· * ·) 1
+def qmin2 (a b : Rat) : Rat := if a ≤ b then a else b
+def qmax2 (a b : Rat) : Rat := if a ≤ b then b else a
+def qabs (a : Rat) : Rat := if 0 ≤ a then a else -a
+
+/-- `np.min` along the row -/
+def qmin : List Rat → Option Rat
+  | [] => none
+  | x :: xs => some (xs.foldl qmin2 x)
+
+/-- `np.max` along the row -/
+def qmax : List Rat → Option Rat
+  | [] => none
+  | x :: xs => some (xs.foldl qmax2 x)
+
+def insertQ (a : Rat) : List Rat → List Rat
+  | [] => [a]
+  | b :: l => if a ≤ b then a :: b :: l else b :: insertQ a l
+
+/-- the row in ascending order (what `np.median` partitions for) -/
+def sortQ : List Rat → List Rat
+  | [] => []
+  | a :: l => insertQ a (sortQ l)
+
+/-- `np.median`: the middle element of the sorted row, or the mean of the two middle ones -/
+def qmedian (l : List Rat) : Option Rat :=
+  let s := sortQ l
+  let n := s.length
+  if n = 0 then none
+  else if n % 2 = 1 then s[n / 2]?
+  else match s[n / 2 - 1]?, s[n / 2]? with
+    | some a, some b => some ((a + b) / 2)
+    | _, _ => none
+
+/-- `np.mean` -/
+def qmean (l : List Rat) : Option Rat :=
+  if l.length = 0 then none else some (qsum l / (l.length : Rat))
+
+/-- `np.var(ddof=d)`: mean of squared deviations with divisor `n - d` -/
+def qvar (ddof : Nat) (l : List Rat) : Option Rat :=
+  if l.length ≤ ddof then none
+  else
+    let m := qsum l / (l.length : Rat)
+    some (qsum (l.map (fun x => (x - m) * (x - m))) / ((l.length - ddof : Nat) : Rat))
+
+def ofBool (b : Bool) : Rat := if b then 1 else 0
+
+/-- exact value of the reduction on a row; for `std` the value of its SQUARE (the variance) -/
+def core (op : Red) (ddof : Nat) (row : List Rat) : Option Rat :=
+  match op with
+  | .mean => qmean row
+  | .max => qmax row
+  | .min => qmin row
+  | .prod => some (qprod row)
+  | .sum => some (qsum row)
+  | .std => qvar ddof row
+  | .var => qvar ddof row
+  | .median => qmedian row
+  | .all => some (ofBool (row.all (fun x => decide (x ≠ 0))))
+  | .any => some (ofBool (row.any (fun x => decide (x ≠ 0))))
+
+/-- `y` IS the reduction of the row (exact arithmetic) -/
+def IsValue (op : Red) (ddof : Nat) (row : List Rat) (y : Rat) : Prop :=
+  match op with
+  | .std => 0 ≤ y ∧ core .std ddof row = some (y * y)
+  | _ => core op ddof row = some y
+
+instance (op ddof row y) : Decidable (IsValue op ddof row y) := by
+  unfold IsValue; cases op <;> infer_instance
+
+/-- `2⁻⁵²` (float64 machine epsilon) -/
+def eps : Rat := 1 / 4503599627370496
+
+/-- `Σ |xᵢ|` -/
+def absSum (row : List Rat) : Rat := qsum (row.map qabs)
+
+/-- rounding allowance for a float64 evaluation of the reduction on a row of `n` values, from
+    the standard forward bounds (`|fl(Σx) − Σx| ≤ γₙ Σ|x|` etc.), with room to spare; exact
+    operations (min, max, all, any) get none -/
+def tol (op : Red) (ddof : Nat) (row : List Rat) : Rat :=
+  let n : Rat := (row.length : Rat)
+  let A := absSum row
+  match op with
+  | .sum => n * eps * A
+  | .mean => (n + 2) * eps * A / n
+  | .prod => n * eps * qabs (qprod row)
+  | .median => 2 * eps * A
+  | .var | .std => 16 * (n + 2) * (n + 2) * eps * A * A / ((row.length - ddof : Nat) : Rat)
+  | _ => 0
+
+/-- the float clause of the spec, decided exactly: the implementation's float64 output `y`
+    (an exact rational) is within the rounding allowance of the exact reduction of the row -/
+def accepts (op : Red) (ddof : Nat) (row : List Rat) (y : Rat) : Bool :=
+  match core op ddof row with
+  | none => false
+  | some v =>
+    match op with
+    | .std => decide (0 ≤ y) && decide (qabs (y * y - v) ≤ 2 * tol op ddof row + 4 * eps * v)
+    | _ => decide (qabs (y - v) ≤ tol op ddof row)
+
+/-- verdict on a whole result vector against the rows each element must reduce over;
+    `none` in `out` = a non-finite output -/
+def judgeRows (op : Red) (ddof : Nat) (rows : List (List Rat)) (out : List (Option Rat)) : Bool :=
+  decide (rows.length = out.length) &&
+    (rows.zip out).all (fun ry => match ry.2 with
+      | some y => accepts op ddof ry.1 y
+      | none => false)
+
+/-- the rows the property prescribes for node→face: the values on the real corners of each face -/
+def cornerRows (data : Int → Rat) (t : Table) : List (List Rat) :=
+  t.map (fun r => (faceOf r).map data)
+
+/-- the rows the partition loop actually gathers (`red = id`), `none` = face never written -/
+def loopRows (data : Int → Rat) (t : Table) (p : Parts) : List (Option (List Rat)) :=
+  aggFace (fun row => row) data t p
+
+/-- the two end values of each edge -/
+def edgeRows (data : Int → Rat) (E : List (Int × Int)) : List (List Rat) :=
+  aggEdge (fun row => row) data E
+
+/-- sub-grid of a face selection: the selected parent rows with the nodes renumbered -/
+def subTable (t : Table) (idx : List Nat) (ren : Int → Int) : Table :=
+  idx.map (fun f => (rowAt t f).map ren)
 
 end UxVerif.Aggregate
